@@ -59,6 +59,7 @@ func c02Scenarios(thorough bool) []c02Scenario {
 		{Name: "S9-commit-fails", Msgs: []c02Msg{{ID: "m1", From: "s@example.com", Rcpts: []string{"a1@example.org"}}}, MaxTries: 3,
 			Script: map[string]int{"m1/1/commit/": qhT}},
 	}
+	ss = append(ss, c02Generated(thorough)...)
 	if thorough {
 		ss = append(ss,
 			c02Scenario{Name: "S10-three-messages", Msgs: []c02Msg{
@@ -69,6 +70,71 @@ func c02Scenarios(thorough bool) []c02Scenario {
 		)
 	}
 	return ss
+}
+
+// c02Generated: one message, two recipients, every single scripted fault of the
+// first attempt, every pair of faults of the first attempt and every
+// temporary fault followed by a fault in the second attempt (quick and thorough),
+// plus two first-attempt faults followed by a second-attempt fault (thorough); atomic and per-recipient targets; max_tries 2, so that the second
+// failure exhausts the attempts. A null-sender variant of every single fault.
+func c02Generated(thorough bool) []c02Scenario {
+	var out []c02Scenario
+	cn := map[int]string{qhT: "T", qhP: "P"}
+	for _, partial := range []bool{false, true} {
+		keys := []string{"start/", "rcpt/a1@example.org", "rcpt/b1@example.org"}
+		if partial {
+			keys = append(keys, "status/a1@example.org", "status/b1@example.org", "commit/")
+		} else {
+			keys = append(keys, "body/", "commit/")
+		}
+		type flt struct {
+			key   string
+			class int
+		}
+		var fs []flt
+		for _, k := range keys {
+			for _, c := range []int{qhT, qhP} {
+				fs = append(fs, flt{k, c})
+			}
+		}
+		mk := func(name, from string, script map[string]int) c02Scenario {
+			return c02Scenario{Name: name, Partial: partial, MaxTries: 2, Script: script,
+				Msgs: []c02Msg{{ID: "m1", From: from, Rcpts: []string{"a1@example.org", "b1@example.org"}}}}
+		}
+		tag := "G-atomic"
+		if partial {
+			tag = "G-partial"
+		}
+		for i, f := range fs {
+			n1 := fmt.Sprintf("%s-1:%s=%s", tag, f.key, cn[f.class])
+			out = append(out, mk(n1, "s@example.com", map[string]int{"m1/1/" + f.key: f.class}))
+			if f.class == qhP || thorough {
+				out = append(out, mk(n1+"-nullsender", "", map[string]int{"m1/1/" + f.key: f.class}))
+			}
+			for j := i + 1; j < len(fs); j++ {
+				g := fs[j]
+				if g.key == f.key {
+					continue
+				}
+				out = append(out, mk(fmt.Sprintf("%s-1:%s=%s+1:%s=%s", tag, f.key, cn[f.class], g.key, cn[g.class]), "s@example.com",
+					map[string]int{"m1/1/" + f.key: f.class, "m1/1/" + g.key: g.class}))
+				if thorough && f.class == qhT {
+					// two first-attempt faults (the first one temporary) and one second-attempt fault
+					for _, h := range fs {
+						out = append(out, mk(fmt.Sprintf("%s-1:%s=T+1:%s=%s+2:%s=%s", tag, f.key, g.key, cn[g.class], h.key, cn[h.class]), "s@example.com",
+							map[string]int{"m1/1/" + f.key: qhT, "m1/1/" + g.key: g.class, "m1/2/" + h.key: h.class}))
+					}
+				}
+			}
+			if f.class == qhT {
+				for _, g := range fs {
+					out = append(out, mk(fmt.Sprintf("%s-1:%s=T+2:%s=%s", tag, f.key, g.key, cn[g.class]), "s@example.com",
+						map[string]int{"m1/1/" + f.key: qhT, "m1/2/" + g.key: g.class}))
+				}
+			}
+		}
+	}
+	return out
 }
 
 // c02Facts are what is known to have happened before a crash point.
@@ -116,7 +182,7 @@ func c02FactsOf(markers []string) c02Facts {
 			if a := cur[p[2]]; a != nil {
 				a.offered[p[4]] = true
 			}
-		case p[0] == "target" && p[1] == "abort":
+		case p[0] == "target" && (p[1] == "abort" || p[1] == "commit-failed"):
 			closeAttempt(p[2])
 		case p[0] == "target" && p[1] == "commit":
 			closeAttempt(p[2])
@@ -167,7 +233,7 @@ func c02Suppressed(sc c02Scenario, markers []string) map[string]bool {
 			decided := class(n, "start", "") != qhOK
 			for _, later := range markers[i+1:] {
 				q := strings.Split(later, ":")
-				if q[0] == "target" && q[2] == m.ID && (q[1] == "abort" || q[1] == "commit") {
+				if q[0] == "target" && q[2] == m.ID && (q[1] == "abort" || q[1] == "commit" || q[1] == "commit-failed") {
 					decided = true
 				}
 				if q[0] == "target" && q[1] == "start" && q[2] == m.ID {
@@ -234,6 +300,7 @@ type c02Case struct {
 	Markers  int    `json:"events_before_crash"`
 	Torn     int    `json:"torn_bytes"`
 	Unsynced bool   `json:"unsynced"`
+	Drop     string `json:"unsynced_subset,omitempty"`
 	Recovery int    `json:"recovery_mode"`
 	Crash2   int    `json:"second_crash_before_op"` // -1: none
 }
@@ -381,8 +448,11 @@ func c02Describe(ops []vos.Op, c c02Case) string {
 	if c.Torn > 0 {
 		s += fmt.Sprintf(", first %d bytes of that write on disk", c.Torn)
 	}
-	if c.Unsynced {
+	if c.Unsynced && c.Drop == "" {
 		s += ", un-synced file data dropped"
+	}
+	if c.Drop != "" {
+		s += ", un-synced data of " + c.Drop + " dropped"
 	}
 	return s
 }
@@ -397,7 +467,7 @@ func TestVerifC02(t *testing.T) {
 	scratch = filepath.Join(scratch, fmt.Sprintf("c02-%d", r.Shard))
 	os.MkdirAll(scratch, 0o755)
 	defer os.RemoveAll(scratch)
-	r.Rule("each scenario (1-3 messages, 1-3 recipients, scripted temporary/permanent failures at recipient/body/status/commit stage, aborts, max_tries exhaustion) runs once on the real queue with every mutating file operation logged; for every crash point i (before each operation) the states prefix(i), torn(i,k) for k in {1, n/2, n-1} and unsynced(i) are materialised and recovered by a fresh real queue (two recovery scripts: accept all / first attempt fails temporarily), recursively for every crash point inside the recovery run (depth 2); oracle: acknowledged mail delivered, reported or re-attempted; aborted mail never delivered; only stored recipients attempted; no re-send once a later attempt had begun; no panic, hang or .meta_broken. Non-trivial: distinct crash states whose spool content differs from the previous crash state of the same scenario")
+	r.Rule("each scenario (8-9 hand-written ones: 1-3 messages, aborts, exhaustion; plus generated ones: one message, two recipients, atomic / per-recipient target, every single scripted fault of the first attempt incl. null-sender variants, every pair of first-attempt faults, every temporary fault followed by a second-attempt fault, and in the thorough tier two first-attempt faults followed by a second-attempt fault; 1-3 messages, 1-3 recipients, scripted temporary/permanent failures at recipient/body/status/commit stage, aborts, max_tries exhaustion) runs once on the real queue with every mutating file operation logged; for every crash point i (before each operation) the states prefix(i), torn(i,k) for k in {1, n/2, n-1} (thorough: also every 8th byte), unsynced(i) and unsynced(i, S) for every subset S of the files holding un-synced data are materialised and recovered by a fresh real queue (two recovery scripts: accept all / first attempt fails temporarily), recursively for every crash point inside the recovery run (depth 2); oracle: acknowledged mail delivered, reported or re-attempted; aborted mail never delivered; only stored recipients attempted; no re-send once a later attempt had begun; no panic, hang or .meta_broken. Non-trivial: distinct crash states whose spool content differs from the previous crash state of the same scenario")
 	r.Assume("a recipient of a null-sender message that failed terminally before the crash (derived from the completed attempts and the script) counts as reported: reports to the null sender are suppressed")
 	r.Assume("directory operations (create, rename, remove) are atomic, ordered and durable; file data is durable only after Sync in the 'unsynced' variant")
 	r.Assume("content of messages that were never acknowledged is not judged")
@@ -466,23 +536,42 @@ func TestVerifC02(t *testing.T) {
 			type variant struct {
 				torn     int
 				unsynced bool
+				drop     string // "": all un-synced files (unsynced) ; else the subset of un-synced files that lose their data, comma separated
 			}
-			vs := []variant{{0, false}, {0, true}}
+			vs := []variant{{0, false, ""}, {0, true, ""}}
+			// every proper, non-empty subset of the files holding un-synced data
+			if uf := vos.UnsyncedFiles(nil, orig.ops, i); len(uf) > 1 && len(uf) <= 4 {
+				for mask := 1; mask < (1<<len(uf))-1; mask++ {
+					var sub []string
+					for b, f := range uf {
+						if mask&(1<<b) != 0 {
+							sub = append(sub, f)
+						}
+					}
+					vs = append(vs, variant{0, true, strings.Join(sub, ",")})
+				}
+			}
 			if wl := vos.WriteLen(orig.ops, i); wl > 1 && cp.nextOp {
 				seenK := map[int]bool{}
-				for _, k := range []int{1, wl / 2, wl - 1} {
+				cuts := []int{1, wl / 2, wl - 1}
+				if vx.Thorough() {
+					for k := 8; k < wl; k += 8 {
+						cuts = append(cuts, k)
+					}
+				}
+				for _, k := range cuts {
 					if k > 0 && !seenK[k] {
 						seenK[k] = true
-						vs = append(vs, variant{k, false})
+						vs = append(vs, variant{k, false, ""})
 					}
 				}
 			}
 			for _, v := range vs {
 				for mode := 0; mode < 2; mode++ {
 					idx++
-					c := c02Case{Scenario: sc.Name, Crash: i, Markers: len(cp.markers), Torn: v.torn, Unsynced: v.unsynced, Recovery: mode, Crash2: -1}
+					c := c02Case{Scenario: sc.Name, Crash: i, Markers: len(cp.markers), Torn: v.torn, Unsynced: v.unsynced, Drop: v.drop, Recovery: mode, Crash2: -1}
 					if replay != nil {
-						if replay.Crash != c.Crash || replay.Markers != c.Markers || replay.Torn != c.Torn || replay.Unsynced != c.Unsynced || replay.Recovery != c.Recovery {
+						if replay.Crash != c.Crash || replay.Markers != c.Markers || replay.Torn != c.Torn || replay.Unsynced != c.Unsynced || replay.Drop != c.Drop || replay.Recovery != c.Recovery {
 							continue
 						}
 					} else if !r.Mine(idx) {
@@ -490,7 +579,17 @@ func TestVerifC02(t *testing.T) {
 					}
 					di := filepath.Join(scratch, "crash")
 					os.RemoveAll(di)
-					content, err := vos.Materialise(di, nil, orig.ops, i, v.torn, v.unsynced)
+					var content map[string][]byte
+					var err error
+					if v.drop != "" {
+						dm := map[string]bool{}
+						for _, f := range strings.Split(v.drop, ",") {
+							dm[f] = true
+						}
+						content, err = vos.MaterialiseDropping(di, nil, orig.ops, i, dm)
+					} else {
+						content, err = vos.Materialise(di, nil, orig.ops, i, v.torn, v.unsynced)
+					}
 					if err != nil {
 						r.HarnessError("materialise: " + err.Error())
 						return
